@@ -117,7 +117,16 @@ fn main() {
         .ok()
         .and_then(|s| s.parse().ok())
         .unwrap_or_else(|| std::thread::available_parallelism().map(|n| n.get()).unwrap_or(8));
-    let scale = std::env::var("VERIF_SCALE").ok().and_then(|s| s.parse().ok()).unwrap_or(1.0);
+    let scale: f64 = std::env::var("VERIF_SCALE").ok().and_then(|s| s.parse().ok()).unwrap_or(1.0);
+    // quick tiers are fixed work of roughly 30-80 s each on 16 cores: the cheap properties run several times
+    // the case counts written in their definitions
+    let scale = scale
+        * match (tier, prop_id.as_str()) {
+            (Tier::Quick, "C03" | "C05" | "C08" | "C13") => 4.0,
+            (Tier::Quick, "C09" | "C10") => 6.0,
+            (Tier::Quick, "C06" | "C16" | "C15") => 3.0,
+            _ => 1.0,
+        };
     let ctx = Ctx {
         prop: def.id,
         tier,
